@@ -8,6 +8,7 @@ import (
 	"strings"
 	"sync"
 	"testing"
+	"time"
 
 	goat "github.com/avos-io/goat"
 	"google.golang.org/grpc/metadata"
@@ -597,3 +598,84 @@ func execC04Reuse(t *testing.T, c C04Reuse) (v Verdict) {
 }
 
 func TestC04Reuse(t *testing.T) { checkProp(t, "C04", "reuse", genC04Reuse, execC04Reuse) }
+
+// ---- C04 after the Serve context ended ---------------------------------------------------------
+//
+// Cancelling the context that was passed to Serve does not stop goat from serving the connection (Stop does). Handlers
+// started afterwards run with a context that is already done - and must still see the caller's request metadata.
+
+type C04ServeCtx struct {
+	Calls []struct {
+		Kind int      `json:"kind"`
+		MD   []kit.KV `json:"md"`
+	} `json:"calls"`
+	Ser   bool `json:"ser"`
+	Stats bool `json:"stats,omitempty"`
+}
+
+func genC04ServeCtx(t *rapid.T) C04ServeCtx {
+	c := C04ServeCtx{Ser: rapid.Bool().Draw(t, "ser"), Stats: rapid.IntRange(0, 3).Draw(t, "stats") == 0}
+	n := rapid.IntRange(1, 4).Draw(t, "n")
+	for i := 0; i < n; i++ {
+		c.Calls = append(c.Calls, struct {
+			Kind int      `json:"kind"`
+			MD   []kit.KV `json:"md"`
+		}{Kind: rapid.SampledFrom(allKinds).Draw(t, "kind"), MD: kit.GenMD(t, 5)})
+	}
+	return c
+}
+
+func execC04ServeCtx(t *testing.T, c C04ServeCtx) (v Verdict) {
+	n := len(c.Calls)
+	seen := make([]metadata.MD, n)
+	ran := make([]bool, n)
+	var mu sync.Mutex
+	res := kit.Bubble(t, func() {
+		svc := kit.NewSvc()
+		for i := range c.Calls {
+			i := i
+			rec := func(ctx context.Context) {
+				md, _ := metadata.FromIncomingContext(ctx)
+				mu.Lock()
+				seen[i], ran[i] = md.Copy(), true
+				mu.Unlock()
+			}
+			svc.Unary(fmt.Sprintf("u%d", i), func(ctx context.Context, req []byte) ([]byte, error) { rec(ctx); return req, nil })
+			svc.Stream(fmt.Sprintf("s%d", i), true, true, func(s grpcServerStream) error { rec(s.Context()); return nil })
+		}
+		w := kit.NewWorld(kit.Topo{Kind: "direct", Serialize: c.Ser, Clients: 1, Stats: c.Stats}, svc, nil, nil)
+		kit.Settle()
+		w.CancelServeCtx()
+		kit.Settle()
+		for i, call := range c.Calls {
+			ctx, cancel := context.WithTimeout(metadata.NewOutgoingContext(context.Background(), kit.MDOf(call.MD)), time.Hour)
+			if call.Kind == kit.KindUnary {
+				_, _ = kit.Invoke(ctx, w.Conn(0), fmt.Sprintf("u%d", i), []byte("x"))
+			} else if cs, err := w.Conn(0).NewStream(ctx, kit.StreamDescFor(call.Kind), kit.FullMethod(fmt.Sprintf("s%d", i))); err == nil {
+				_ = cs.CloseSend()
+				_, _ = kit.RecvBytes(cs)
+			}
+			cancel()
+			kit.Settle()
+		}
+		w.Shutdown()
+		kit.Settle()
+	})
+	if res.Panic != nil {
+		v.failf("panic: %v\n%s", res.Panic, res.Stack)
+	}
+	started := 0
+	for i, call := range c.Calls {
+		if !ran[i] {
+			continue // whether goat still starts handlers then is not C04's business
+		}
+		started++
+		if msg := kit.MDEqual(seen[i], kit.ModelMD(call.MD), ":authority", "content-type", "user-agent", "grpc-timeout"); msg != "" {
+			v.failf("call %d (%s) served after the Serve context had ended: request metadata seen by the handler: %s", i, kit.KindNames[call.Kind], msg)
+		}
+	}
+	v.Info = kit.CaseInfo{Labels: []string{"servectx-ended", fmt.Sprintf("servectx.handlers_started=%v", started > 0)}, NonTrivial: started > 0, Key: fmt.Sprintf("%+v", c), Sample: c}
+	return
+}
+
+func TestC04ServeCtx(t *testing.T) { checkProp(t, "C04", "servectx", genC04ServeCtx, execC04ServeCtx) }
